@@ -283,7 +283,8 @@ class Backend(abc.ABC):
         if source_circuit.size == 0 and not self._noise_model:
             if initial_statevector is not None:
                 statevector = initial_statevector
-                frequencies = self._statevector_to_frequencies(initial_statevector)
+                # Some backends expect the initial statevector as a column matrix: read the amplitudes as a 1D array
+                frequencies = self._statevector_to_frequencies(np.asarray(initial_statevector).ravel())
             else:
                 frequencies = {'0'*source_circuit.width: 1.0}
                 statevector = np.zeros(2**source_circuit.width)
